@@ -20,7 +20,11 @@ use crate::world::{gen_perm, gen_probes, gen_user_csv, gen_world, join_ids, pars
 
 pub struct ImageScenario;
 
-pub const MAGIC: &[u8] = b"VibratoTokenizer 0.5\n";
+/// The current model magic, read from the code under test (hook H7) so that a new format version
+/// does not turn the foreign-header cases into false alarms.
+pub fn magic() -> &'static [u8] {
+    Dictionary::verif_model_magic()
+}
 
 /// Builds the reference dictionary of a plan: world -> optional user lexicon / mapping.
 pub fn reference_dict(plan: &Plan, ctx: &mut Ctx) -> Result<Dictionary, Violation> {
@@ -249,7 +253,7 @@ impl Scenario for ImageScenario {
                     expect_rejected("C09.reader_error", &format!("reader error at {k}/{len}"), r, ctx)?;
                 }
                 "ForeignMagic" => {
-                    let i = (op.num(0) as usize).min(MAGIC.len() - 1);
+                    let i = (op.num(0) as usize).min(magic().len() - 1);
                     let mut img = image.clone();
                     let b = img[i].wrapping_add(op.num(1).clamp(1, 255) as u8);
                     img[i] = b;
@@ -259,18 +263,24 @@ impl Scenario for ImageScenario {
                     expect_rejected("C09.magic", &format!("magic byte {i} -> {b:#x}"), r, ctx)?;
                 }
                 "MagicPrefix" => {
-                    let n = (op.num(0) as usize).min(MAGIC.len());
+                    let n = (op.num(0) as usize).min(magic().len());
                     let img: Vec<u8> = match op.num(1) {
-                        0 => MAGIC[..n].to_vec(),
+                        0 => magic()[..n].to_vec(),
                         1 => {
-                            // an image of the previous format version
-                            let mut v = b"VibratoTokenizer 0.4\n".to_vec();
-                            v.extend_from_slice(&image[MAGIC.len()..]);
+                            // an image of another format version: the last digit of the magic
+                            // decremented ("0.5" -> "0.4")
+                            let mut v = magic().to_vec();
+                            if let Some(i) = v.iter().rposition(|b| b.is_ascii_digit()) {
+                                v[i] = if v[i] == b'0' { b'9' } else { v[i] - 1 };
+                            } else {
+                                v[0] ^= 0x20;
+                            }
+                            v.extend_from_slice(&image[magic().len()..]);
                             v
                         }
                         _ => {
                             // payload without the magic
-                            image[MAGIC.len()..].to_vec()
+                            image[magic().len()..].to_vec()
                         }
                     };
                     let r = read_image(&img, &none, ctx);
@@ -451,7 +461,7 @@ impl Scenario for ImageScenario {
                 return;
             }
             // all single-byte substitutions of the magic
-            for i in 0..MAGIC.len() {
+            for i in 0..magic().len() {
                 for delta in 1..=255u8 {
                     let mut img = image.clone();
                     img[i] = img[i].wrapping_add(delta);
